@@ -76,6 +76,12 @@ def run(env, tier, seed, broken=None):
     for k in (1360, 1365, 1366, 1370, 2000, 2730, 2731, 4095, 4096, 4097, 5000, 21845, 21846, 30000):
         strs.append('ক' * k)
         strs.append('ab' + 'খগ' * (k // 2))
+    # long lines made of composable pairs / triples (decomposed vowel signs whose second half is a SPACING mark, Hangul jamo,
+    # letter + accent) at every byte alignment: wherever an output buffer of 4096 / 8192 bytes ends, a pair straddles it
+    for unit, pads in [('ক\u09c7\u09be', range(9)), ('ক\u09c7\u09d7', (0, 4, 8)), ('\u1100\u1161\u11a8', range(9)), ('e\u0301', (0, 1, 2)),
+                       ('\u0b95\u0bc6\u0bbe', (1, 5)), ('\u1025\u102e', (2, 3)), ('\u09a1\u09bc\u09af\u09bc', (0, 3, 7))]:
+        for pad in pads:
+            strs.append('x' * pad + unit * (8400 // len(unit.encode()) + 2))
     # characters with a compatibility (not canonical) decomposition must come out unchanged: NFC, not NFKC
     strs += ['o\ufb03ce x\u00b2 \u2460 \u210c \u00bd \u2026 \u2122', '\uff21\uff22', 'a\u00a0b', '\u2126 \u212b \u212a', '\ufb2c', '\u1e9b\u0323', '\u3392', '\u00b5m']
     strs += decomposable + [unicodedata.normalize('NFD', c) for c in decomposable] + ['ক' + c for c in bangla if unicodedata.combining(c)]
